@@ -27,7 +27,27 @@ TRUSTED = ['hand-written model coq/Model/Merge.v tied to biom/table.py:3397-3418
            'harness.tables.Coder: id codes respect python string order (sorted() = sort by code)',
            'extraction (ExtrOcamlBasic only) + ocaml/driver_tail.ml, cross-checked against vm_compute on a sample']
 from . import regen as _regen
-regenerate = _regen.hook(TRUSTED, ['helpers', 'util'])   # py2v: regenerate coq/Gen/* from the source first
+_regen_helpers = _regen.hook(TRUSTED, ['helpers', 'util'])   # py2v: regenerate coq/Gen/* from the source first
+from . import regen_merge as _regen_merge
+# py2v_merge: regenerate coq/Gen/MergeGen.v (Table.merge) from the source as well
+_regen_wrap = _regen_merge.hook(TRUSTED, ['merge'], 'coq/Model/Merge.v (merge_dispatch)',
+                                'coq/Proofs/GenBridgeMergeWrapProofs.v')
+
+
+def regenerate():
+    """both translators run; each hook resets TRUSTED to its base first, so the lines of the first are kept by hand"""
+    err = None
+    try:
+        _regen_helpers()
+    except Exception as e:          # a refusal: still run the other translator, then report
+        err = e
+    first = [x for x in TRUSTED if 'tools/py2v on this run' in x or 'translator REFUSED' in x]
+    try:
+        _regen_wrap()
+    finally:
+        TRUSTED.extend(first)
+    if err is not None:
+        raise err
 ASSUMPTIONS = ['operands are coherent tables (C05) with at least one observation and one sample',
                'metadata None and the empty dict are the same observation of "no metadata for this id"',
                'a metadata-merge function is a deterministic total function of its two arguments returning a dict or None; '
